@@ -45,7 +45,7 @@ def describe():
         "functions": ["adapters.py:AdapterIndex.__init__/_accept/_make_index (concrete)", "adapters.py:AdapterIndex._match_to_one_length/_match_to_multiple_lengths/_lookup_with_n",
                       "adapters.py:AdapterIndex._make_prefix/_make_suffix/_make_prefix_match/_make_suffix_match", "adapters.py:PrefixAdapter/SuffixAdapter.match_to (N fallback)",
                       "_align.pyx:PrefixComparer/SuffixComparer/Aligner.locate (N fallback)", "_align.pyx:edit_environment/hamming_sphere (native, concrete arguments)"],
-        "bounds": {"quick": {"adapter sets": [s for _, s in SETS_QUICK], "orders": "given, reversed and one rotated order (thorough: every permutation)", "errors k": "0, 1", "indels": "on/off", "ends": "5' and 3'",
+        "bounds": {"quick": {"adapter sets": [s for _, s in SETS_QUICK], "orders": "given, reversed and one rotated order (thorough: every permutation)", "errors k": "0, 1 (the same budget for all adapters; plus, for the first three sets, one adapter with budget 1 and the others 0, and the other way round)", "indels": "on/off", "ends": "5' and 3'",
                              "read": "every length 0..longest indexed string + 1, characters symbolic over " + READ_ALPHABET},
                    "thorough": {"adapter sets": [s for _, s in SETS_THOROUGH], "errors k": "0, 1, 2", "read": "0..longest + 2"}},
         "outside_bounds": ["adapter sets are enumerated, not symbolic (a dictionary over symbolic keys is out of reach)", "longer adapters, k = 3", "read characters outside " + READ_ALPHABET],
@@ -79,6 +79,18 @@ def jobs(tier, seed):
                         for n in range(0, top + 1):
                             out.append({"name": "%s/%s/%s/indels=%d/k=%d/n=%d" % (sname, "-".join(order), "5p" if prefix else "3p", indels, k, n),
                                         "seqs": order, "prefix": prefix, "indels": indels, "k": k, "n": n})
+    # adapters of one index with DIFFERENT error budgets (one adapter allows one error, the others none, and the other way round)
+    mixed_sets = sets[:3] if tier == "quick" else sets
+    for sname, seqs in mixed_sets:
+        orders = [list(seqs)]
+        for order in orders:
+            for prefix in (True, False):
+                for indels in ((True,) if tier == "quick" else (True, False)):
+                    for ks in ([1] + [0] * (len(order) - 1), [0] * (len(order) - 1) + [1]):
+                        maxlen = max(len(s) for s in order) + (1 if indels else 0)
+                        for n in range(0, maxlen + 2):
+                            out.append({"name": "%s/%s/%s/indels=%d/budgets=%s/n=%d" % (sname, "-".join(order), "5p" if prefix else "3p", indels, "".join(map(str, ks)), n),
+                                        "seqs": order, "prefix": prefix, "indels": indels, "k": 1, "ks": ks, "n": n})
     return out
 
 
@@ -86,12 +98,13 @@ def rate_for(k, length):
     return (k + 0.5) / length
 
 
-def build_index(it, seqs, prefix, indels, k):
+def build_index(it, seqs, prefix, indels, k, ks=None):
     import cutadapt.adapters as A
+    ks = ks or [k] * len(seqs)
     it.overrides["SingleAdapter._make_kmer_finder"] = lambda it_, *a, **kw: A.MockKmerFinder()
     it.merge_funcs |= {"AdapterIndex._match_to_one_length", "AdapterIndex._match_to_multiple_lengths"}
     cls = it.getattr(A, "PrefixAdapter" if prefix else "SuffixAdapter")
-    ads = [it.call_value(cls, [s], {"max_errors": rate_for(k, len(s)), "indels": indels, "name": s}) for s in seqs]
+    ads = [it.call_value(cls, [s], {"max_errors": rate_for(kj, len(s)), "indels": indels, "name": s}) for s, kj in zip(seqs, ks)]
     idx = it.call_value(it.getattr(A, "AdapterIndex"), [ads], {"prefix": prefix})
     return ads, idx
 
@@ -120,11 +133,11 @@ def distances(seqs, read_chars, prefix, indels):
 def path(J, ctx, job):
     seqs, prefix, indels, k, n = job["seqs"], job["prefix"], job["indels"], job["k"], job["n"]
     it = new_interp(ctx)
-    ads, idx = build_index(it, seqs, prefix, indels, k)
+    ads, idx = build_index(it, seqs, prefix, indels, k, job.get("ks"))
     read = sym_str(ctx, "r", n, alphabet=READ_ALPHABET)
 
     def mk(m):
-        return {"seqs": seqs, "prefix": prefix, "indels": indels, "k": k, "read": model_str(m, read)}
+        return {"seqs": seqs, "prefix": prefix, "indels": indels, "k": k, "ks": job.get("ks"), "read": model_str(m, read)}
     try:
         mt = it.call_value(it.getattr(idx, "match_to"), [read], {})
     except (AssertionError, IndexError, KeyError, TypeError, ValueError, AttributeError) as e:
@@ -140,7 +153,7 @@ def path(J, ctx, job):
     for d in defs:
         ctx.assume(d)
     nfree = z3.And(*[z3.Not(V.in_ranges(zint(c), [ord("N"), ord("n")])) for c in read.chars]) if n else z3.BoolVal(True)
-    ks = [k for _ in seqs]
+    ks = list(job.get("ks") or [k for _ in seqs])
     # occurrence of adapter j within tolerance at the anchored end
     occ = []
     for j, s in enumerate(seqs):
@@ -204,10 +217,11 @@ def run_job(job):
 
 
 # ------------------------------------------------------------------------------- concrete reference & replay
-def real_index(seqs, prefix, indels, k):
+def real_index(seqs, prefix, indels, k, ks=None):
     import cutadapt.adapters as A
     cls = A.PrefixAdapter if prefix else A.SuffixAdapter
-    ads = [cls(s, max_errors=rate_for(k, len(s)), indels=indels, name=s) for s in seqs]
+    ks = ks or [k] * len(seqs)
+    ads = [cls(s, max_errors=rate_for(kj, len(s)), indels=indels, name=s) for s, kj in zip(seqs, ks)]
     return ads, A.AdapterIndex(ads, prefix=prefix)
 
 
@@ -215,9 +229,11 @@ def conc_dist(a, r, indels):
     return AC.edit_distance(a, r, False, False, indels)
 
 
-def check_concrete(seqs, prefix, indels, k, read):
+def check_concrete(seqs, prefix, indels, k, read, ks=None):
     """-> list of violated clauses for one concrete read on the real build"""
-    ads, idx = real_index(seqs, prefix, indels, k)
+    ks = list(ks or [k] * len(seqs))
+    kof = dict(zip(seqs, ks))
+    ads, idx = real_index(seqs, prefix, indels, k, ks)
     n = len(read)
     bad = []
     try:
@@ -230,7 +246,7 @@ def check_concrete(seqs, prefix, indels, k, read):
         return read[:l] if prefix else read[n - l:]
     occ = []
     for s in seqs:
-        occ.append(any((conc_dist(s, affix(l), indels) is not None and conc_dist(s, affix(l), indels) <= k) for l in range(n + 1)))
+        occ.append(any((conc_dist(s, affix(l), indels) is not None and conc_dist(s, affix(l), indels) <= kof[s]) for l in range(n + 1)))
     same_len = len({len(s) for s in seqs}) == 1
     L = len(seqs[0])
     if mt is None:
@@ -239,7 +255,7 @@ def check_concrete(seqs, prefix, indels, k, read):
         if nfree and same_len and not indels and n >= L:
             d = [conc_dist(s, affix(L), False) for s in seqs]
             best = min(d)
-            if d.count(best) == 1 and best <= k:
+            if d.count(best) == 1 and best <= kof[seqs[d.index(best)]]:
                 bad.append("unique nearest adapter %s (distance %d) but nothing is reported" % (seqs[d.index(best)], best))
         return bad, None
     tup = (mt.adapter.sequence, mt.rstart, mt.rstop, mt.errors)
@@ -248,20 +264,20 @@ def check_concrete(seqs, prefix, indels, k, read):
         return bad, tup
     l = mt.rstop - mt.rstart
     dd = conc_dist(mt.adapter.sequence, affix(l), indels)
-    if dd is None or dd != mt.errors or mt.errors > k:
-        bad.append("not a genuine occurrence: errors=%d, true distance %s, tolerance %d" % (mt.errors, dd, k))
+    if dd is None or dd != mt.errors or mt.errors > kof[mt.adapter.sequence]:
+        bad.append("not a genuine occurrence: errors=%d, true distance %s, tolerance %d" % (mt.errors, dd, kof[mt.adapter.sequence]))
     if nfree and sum(occ) == 1 and seqs[occ.index(True)] != mt.adapter.sequence:
         bad.append("the only occurring adapter is %s" % seqs[occ.index(True)])
     if nfree and same_len and not indels and n >= L:
         d = [conc_dist(s, affix(L), False) for s in seqs]
         best = min(d)
-        if d.count(best) == 1 and best <= k and (seqs[d.index(best)] != mt.adapter.sequence or mt.errors != best or l != L):
+        if d.count(best) == 1 and best <= kof[seqs[d.index(best)]] and (seqs[d.index(best)] != mt.adapter.sequence or mt.errors != best or l != L):
             bad.append("one-by-one search gives %s with %d errors" % (seqs[d.index(best)], best))
     return bad, tup
 
 
 def replay(cex):
-    bad, tup = check_concrete(cex["seqs"], cex["prefix"], cex["indels"], cex["k"], cex["read"])
+    bad, tup = check_concrete(cex["seqs"], cex["prefix"], cex["indels"], cex["k"], cex["read"], cex.get("ks"))
     return bool(bad), "AdapterIndex(%s %s, k=%d, indels=%s).match_to(%r) = %r: %s" % (
         "anchored 5'" if cex["prefix"] else "anchored 3'", cex["seqs"], cex["k"], cex["indels"], cex["read"], tup, "; ".join(bad) or "consistent with the reference")
 
